@@ -26,13 +26,16 @@ def run(tier, seed):
     build.ir_many([dict(config=c, flavour="O0") for c in cfgs])
     tasks = []
     keep = ("ed_decompress", "ed_compress", "ristretto_decode", "ristretto_encode", "ristretto_map", "ristretto_from_uniform_bytes", "montgomery to_edwards",
-            "edwards to_montgomery", "montgomery elligator_encode", "montgomery as_affine", "montgomery ct_eq", "fe_batch_invert", "fe_invsqrt", "fe_sqrt_ratio_i")
+            "edwards to_montgomery", "nonspec_map_to_curve", "montgomery elligator_encode", "montgomery as_affine", "montgomery ct_eq", "fe_batch_invert", "fe_invsqrt", "fe_sqrt_ratio_i")
     for cfg in cfgs:
         mp = build.ir(cfg, "O0")
         sub = Report("C15")
         for mod in (c03, c06, c07, c01f):
             hs = mod.harnesses(rep, cfg, mp)
             tasks += hs
+    # the `expect` of EdwardsPoint::nonspec_map_to_curve: every None path of to_edwards(elligator_encode(r), sign) closed by a certificate (checks/c15n.py)
+    from checks import c15n
+    for cfg in cfgs: tasks.append(lambda cfg=cfg: c15n.harness(rep, cfg, build.ir(cfg, "O0")))
     def kani_curve():
         res = kani.run("curve25519-dalek", "serial64", list(CURVE_KANI), timeout_s=600, jobs=4)
         kani.record(rep, "serial64", res, list(CURVE_KANI), CURVE_KANI)
